@@ -9,7 +9,8 @@ package main
 //	                          `switch rel.Type` (relation kinds or "default"): what rel.Field.Set is given —
 //	                          "emptySlice" (reflect.MakeSlice(…, 0, …)), "zero" (reflect.New(rel.Field.FieldType)), "other", "none" —
 //	                          and whether every record of the destination is reached (Struct: the value itself; Slice/Array:
-//	                          inside `for i := 0; i < reflectValue.Len(); i++` on reflectValue.Index(i))
+//	                          inside `for i := 0; i < reflectValue.Len(); i++` on reflectValue.Index(i)); an arm that holds
+//	                          anything but plain expression statements (a Set under an `if` …) is "other"
 //	preloadResetAfterQuery    the reset switch comes after the statement that runs the child query (…Find(reflectResults…))
 //	preloadResetBeforeAssign  … and before the `for … reflectResults.Len()` assignment loop, with no return in between
 //	preloadAssignStruct/Slice what the assignment loop does per field kind: "overwrite" (rel.Field.Set(…, data, elem.Interface()))
@@ -27,6 +28,16 @@ func init() {
 	extraGens = append(extraGens, func(o *out, pkgs map[string]map[string]*ast.File, all []funcInfo, repo string) {
 		genC08PreloadResetFacts(o, all)
 	})
+}
+
+// strict: every statement of the arm must be a plain expression statement (a Set under an `if` is not an unconditional reset)
+func c08FieldSetArgStrict(body []ast.Stmt, wantTarget string) string {
+	for _, s := range body {
+		if _, ok := s.(*ast.ExprStmt); !ok {
+			return "other"
+		}
+	}
+	return c08FieldSetArg(body, wantTarget)
 }
 
 func c08FieldSetArg(body []ast.Stmt, wantTarget string) string {
@@ -157,7 +168,7 @@ func genC08PreloadResetFacts(o *out, all []funcInfo) {
 					ts = []string{"default"}
 				}
 				arms = append(arms, fmt.Sprintf("  { destKind := %s, relTypes := %s, sets := %s, everyRecord := %s }",
-					lstr(destKind), lstrs(ts), lstr(c08FieldSetArg(icc.Body, target)), lbool(every)))
+					lstr(destKind), lstrs(ts), lstr(c08FieldSetArgStrict(icc.Body, target)), lbool(every)))
 			}
 		}
 		// the assignment loop: `switch reflectFieldValue.Kind()` inside `for _, data := range datas`
